@@ -291,3 +291,48 @@ Example ex_history_share_of_current_colony :
   let st := init_state (emergency_cfg d029) true [(1, 1); (1, 1); (1, 1); (1, 1); (1, 1); (1, 1)] in
   map is_permit (run_history false st [OVote two_permit; OAdd 10 1; OVote two_permit]) = [true; false].
 Proof. vm_compute. reflexivity. Qed.
+
+(* ---------------------------------------------------------------------- *)
+(* time: a voter slower than timeout_seconds, then the next vote               *)
+
+(* UNANIMOUS, three voters, timeout_seconds = 0.4.  Vote 1: everybody permits, the
+   third member needs 0.6 s (longer than timeout_seconds): it is waited for and
+   counted - PERMIT 3/0, three members had answered when the call was over, the
+   call lasted 0.6 s.  Vote 2: the first member needs 0.3 s, the third BLOCKS:
+   BLOCK with counts 2 permits / 1 block - the third member's permit of vote 1
+   is not a ballot of vote 2.  The hypotheses of
+   c06_no_answer_outstanding_after_a_call hold (delays >= 0) and timeout_seconds
+   is exceeded by a member's answer time, so c06_timed_vote_counts_its_own_ballots
+   is not about punctual voters only. *)
+Definition third_blocks : nat -> behaviour :=
+  fun i => match i with 2%nat => Acted ABlock None | _ => Acted APermit None end.
+Definition slow_third : nat -> Q := delays_of [0; 0; 6 # 10].
+Definition slow_first : nat -> Q := delays_of [3 # 10].
+
+Example ex_timed_slow_voter_then_next_vote :
+  let ts := mkT (init_state (cfg Unanimous) true [(1, 1); (1, 1); (1, 1)]) (4 # 10) 0 in
+  let ops := [TVote permit_all slow_third; TVote third_blocks slow_first] in
+  map (fun x => verdict (snd x)) (ttrace false ts ops) = [Some (true, Permit); Some (false, Block)] /\
+  map (fun x => match snd x with Result r => [r_permit r; r_block r; r_abstain r] | _ => [] end)
+      (ttrace false ts ops) = [[3; 0; 0]; [2; 1; 0]]%Z /\
+  Qeq_bool (t_now (tfinal false ts ops)) (9 # 10) = true /\
+  Qle_bool (nth 2 (answer_times 0 0 (s_colony (t_q ts)) slow_third) 0) (t_timeout ts) = false /\
+  answered_within (s_colony (t_q ts)) slow_third = 3%Z /\
+  run_case (cfg Unanimous, true, 4 # 10, [(1, 1); (1, 1); (1, 1)], ops) =
+  [[1; 1; 0; 3; 3; 0; 0; 3]; [0; 1073741824; 1; 1]; [0; 1073741824; 1; 1]; [0; 1073741824; 1; 1]; [-7; 3]; [-4; 0];
+   [1; 0; 1; 3; 2; 1; 0; 3]; [0; 1073741824; 1; 1]; [0; 1073741824; 1; 1]; [1; 1073741824; 1; 1]; [-7; 3]; [-4; 0];
+   [-2; 3]; [0; 2; 0; 1073741824; 1073741824]; [1; 2; 0; 1073741824; 1073741824];
+   [2; 2; 0; 1073741824; 1073741824]; [-5; 6; 1; 1]]%Z.
+Proof. vm_compute. repeat split; reflexivity. Qed.
+
+(* c06_timing_never_changes_an_outcome on a history that mixes timed and untimed
+   operations, assigns timeout_seconds and abandons a slow call *)
+Example ex_timing_erased :
+  let ts := mkT (init_state (cfg Majority) true [(1, 1); (1, 1); (1, 1)]) 30 0 in
+  let ops := [TSetTimeout (1 # 10); TVote first_permits slow_third; TOp (OAdd 7 1);
+              TInterrupted permit_all slow_third 2; TSetTimeout 0; TOp (OVote permit_all)] in
+  flat_map untimed ops = [OVote first_permits; OAdd 7 1; OInterrupted permit_all 2; OVote permit_all] /\
+  map (fun x => verdict (snd x)) (ttrace false ts ops) = [Some (false, Block); Some (true, Permit)] /\
+  Qeq_bool (t_timeout (tfinal false ts ops)) 0 = true /\
+  Qeq_bool (t_now (tfinal false ts ops)) (12 # 10) = true.
+Proof. vm_compute. repeat split; reflexivity. Qed.
